@@ -729,5 +729,11 @@ int main(int argc, char** argv)
         p.watchdog_s = 60;
         specs.push_back(p);
     }
+    {
+        // the same ordered-list model, attributed to C09 (playlist / playlist-entity listings at table level)
+        vf::PropSpec p = specs.back();
+        p.id = "C09.table";
+        specs.push_back(p);
+    }
     return vf::pbt_main(argc, argv, specs);
 }
